@@ -175,6 +175,20 @@ def user_defined_part(ctx, count, scratch):
             obj = U.UserDefinedConstraints(rk_arr, data=info, equation=eq)
             got, _ = obj.constraint()
             want = [s for s in rk if f(s % side, s // side)]
+            if rng.random() < 0.5 and [int(g) for g in got] == want:
+                # the same constraint object asked again after the caller refreshed its ranking buffer in place (re-ranked sensors
+                # written into the array the object was built with): the equation is evaluated for the sensors as they are NOW
+                rk2 = list(rk); rng.shuffle(rk2)
+                rk_arr[:] = np.array(rk2, dtype=rdt)
+                try:
+                    got, _ = obj.constraint()
+                except Exception as e:
+                    ctx.violation("concrete", f"equation constraint raised {type(e).__name__} when asked again after the ranking array was updated in place",
+                                  {"signature": "equation-polarity:after-inplace-ranking-update", "ranking": rk2, "side": side, "index": idx})
+                    continue
+                rk = rk2
+                want = [s for s in rk if f(s % side, s // side)]
+                ctx.count("equation_asked_again_after_inplace_ranking_update")
             what = f"equation '{eq}' marks {got}, sensors where it is true: {want}"
             sig = "equation-polarity"
         else:
